@@ -46,12 +46,9 @@ theorem parseNext_inB {s : Bytes} {len : Int} {rg : Rng} {rest : Bytes} (hlen : 
             · simp at h
         · simp at h
       · simp at h
-    · split at h
-      · rename_i hmin
-        simp only [Prod.mk.injEq, Option.some.injEq] at h
-        rw [← h.1]; simp only [InB]
-        split <;> omega
-      · simp at h
+    · simp only [Prod.mk.injEq, Option.some.injEq] at h
+      rw [← h.1]; simp only [InB]
+      split <;> omega
 
 theorem parseSpec_inB {p : Bytes} {len : Int} {rg : Rng} (hlen : 0 < len)
     (h : parseSpec p len = some rg) : InB len rg := by
@@ -633,13 +630,6 @@ def Spec.sem (len : Int) : Spec → Option Rng
     if decVal n = 0 then none
     else some (if len > (decVal n : Int) then len - (decVal n : Int) else 0, len - 1)
 
-/-- numbers the code reads without clamping: last-pos < 2^63-1, suffix-length < 2^63
-    (any first-pos is fine: a clamped one is ≥ len anyway) -/
-def Spec.NoClamp : Spec → Prop
-  | .range _ l => (decVal l : Int) < LLONG_MAX
-  | .fromPos _ => True
-  | .suffix n => (decVal n : Int) < -LLONG_MIN
-
 theorem digit_not (d : UInt8) (h : isDigit d = true) :
     isSpace d = false ∧ isBlank d = false ∧ d ≠ 45 ∧ d ≠ 43 := by
   simp only [isDigit, Bool.and_eq_true, decide_eq_true_eq] at h
@@ -755,16 +745,18 @@ theorem clamp_pos_nonneg (v : Nat) : 0 ≤ clampLL false v := by
   split <;> omega
 
 /-- the parser implements the RFC semantics of every grammatical range-spec,
-    with optional whitespace around it, as long as no number is clamped -/
+    with optional whitespace around it, whatever the magnitude of its numbers
+    (numbers beyond the off_t range are clamped by strtoll, which is harmless:
+    a clamped first-pos is ≥ len, a clamped last-pos means "to the end", a
+    clamped suffix-length means "everything") -/
 theorem parseSpec_element (len : Int) (hlen : 0 < len) (hmax : len ≤ LLONG_MAX)
     (pre post : Bytes) (hpre : IsOws pre) (hpost : IsOws post)
-    (sp : Spec) (hwf : sp.WF) (hnc : sp.NoClamp) :
+    (sp : Spec) (hwf : sp.WF) :
     parseSpec (pre ++ sp.text ++ post) len = sp.sem len := by
   rw [llmax_eq] at hmax
   cases sp with
   | range f l =>
     obtain ⟨hf, hl⟩ := hwf
-    simp only [Spec.NoClamp, llmax_eq] at hnc
     have e : pre ++ (Spec.range f l).text ++ post = pre ++ (f ++ (45 :: (l ++ post))) := by
       simp [Spec.text, List.append_assoc]
     have h1 := strtoll_num pre f (45 :: (l ++ post)) hpre hf (head_minus_not_digit _)
@@ -778,17 +770,28 @@ theorem parseSpec_element (len : Int) (hlen : 0 < len) (hmax : len ≤ LLONG_MAX
     by_cases ha : (decVal f : Int) < len
     · have hc : clampLL false (decVal f) = (decVal f : Int) := by
         simp only [clampLL, llmax_eq, Bool.false_eq_true, if_false]; split <;> omega
-      have hcl : clampLL false (decVal l) = (decVal l : Int) := by
-        simp only [clampLL, llmax_eq, Bool.false_eq_true, if_false]; split <;> omega
       rw [hc]
       have hne : (decVal f : Int) ≠ LLONG_MAX := by rw [llmax_eq]; omega
       simp only [hne, ha, ne_eq, not_false_eq_true, and_self, if_true, skipWs_minus]
-      rw [h2, hcl]
-      have hne2 : (decVal l : Int) ≠ LLONG_MAX := by rw [llmax_eq]; omega
-      simp only [hne2, ne_eq, not_false_eq_true, and_true, skipWs_blank post hpost, Spec.sem, ha]
+      rw [h2]
+      -- the clamped last-pos compares like the real one against first-pos and len
+      have hle : ((decVal f : Int) ≤ clampLL false (decVal l)) ↔ ((decVal f : Int) ≤ decVal l) := by
+        simp only [clampLL, llmax_eq, Bool.false_eq_true, if_false]; split <;> omega
+      have hlt : (clampLL false (decVal l) < len) ↔ ((decVal l : Int) < len) := by
+        simp only [clampLL, llmax_eq, Bool.false_eq_true, if_false]; split <;> omega
+      have hval : (decVal l : Int) < len → clampLL false (decVal l) = (decVal l : Int) := by
+        intro h
+        simp only [clampLL, llmax_eq, Bool.false_eq_true, if_false]; split <;> omega
+      simp only [skipWs_blank post hpost, Spec.sem, ha, and_true]
       by_cases hab : (decVal f : Int) ≤ decVal l
-      · simp [hab]
-      · simp [hab]
+      · have hab' := hle.mpr hab
+        simp only [hab, hab', if_true]
+        by_cases hb : (decVal l : Int) < len
+        · simp only [hb, hlt.mpr hb, if_true, hval hb]
+        · have hb' : ¬ clampLL false (decVal l) < len := fun h => hb (hlt.mp h)
+          simp only [hb, hb', if_false]
+      · have hab' : ¬ (decVal f : Int) ≤ clampLL false (decVal l) := fun h => hab (hle.mp h)
+        simp only [hab, hab', if_false]
     · have hc : ¬ (clampLL false (decVal f) ≠ LLONG_MAX ∧ clampLL false (decVal f) < len) := by
         simp only [clampLL, llmax_eq, Bool.false_eq_true, if_false]
         split <;> omega
@@ -817,23 +820,26 @@ theorem parseSpec_element (len : Int) (hlen : 0 < len) (hmax : len ≤ LLONG_MAX
       simp only [hc, if_false, Spec.sem, ha]
   | suffix n =>
     have hn : IsNum n := hwf
-    simp only [Spec.NoClamp, llmin_eq] at hnc
     have e : pre ++ (Spec.suffix n).text ++ post = pre ++ 45 :: (n ++ post) := by
       simp [Spec.text, List.append_assoc]
     have h1 := strtoll_neg pre n post hpre hn (head_blank_not_digit post hpost)
     rw [e]
     unfold parseSpec parseNext
     rw [h1]
-    have hc : clampLL true (decVal n) = -(decVal n : Int) := by
-      simp only [clampLL, llmin_eq, if_true]; split <;> omega
-    rw [hc]
     by_cases hz : decVal n = 0
-    · rw [hz]
+    · have hc : clampLL true (decVal n) = 0 := by
+        simp only [clampLL, llmin_eq, if_true, hz]; decide
+      rw [hc]
       simp [llmax_eq, hlen, skipWs_blank post hpost, Spec.sem, hz]
-    · have h0 : ¬ (-((decVal n : Nat) : Int) ≥ 0) := by omega
-      have hne : -((decVal n : Nat) : Int) ≠ LLONG_MIN := by rw [llmin_eq]; omega
-      simp only [h0, hne, ne_eq, not_false_eq_true, if_true, if_false,
-        skipWs_blank post hpost, Spec.sem, hz, Int.neg_neg, Int.sub_eq_add_neg]
+    · -- the clamped value is negative; it selects the same start as the real suffix-length
+      have hneg : ¬ (clampLL true (decVal n) ≥ 0) := by
+        simp only [clampLL, llmin_eq, if_true]; split <;> omega
+      have hstart : (if clampLL true (decVal n) ≠ LLONG_MIN ∧ len > -clampLL true (decVal n)
+                      then len + clampLL true (decVal n) else 0)
+                    = (if len > (decVal n : Int) then len - (decVal n : Int) else 0) := by
+        simp only [clampLL, llmin_eq, if_true]
+        split <;> split <;> split <;> omega
+      simp only [hneg, if_false, hstart, skipWs_blank post hpost, Spec.sem, hz]
 
 /-! ### a whole range-set: elements joined by commas -/
 
@@ -903,17 +909,17 @@ theorem splitOn_rangeSet (es : List Elem) (hne : es ≠ []) (hwf : ∀ e ∈ es,
     exact e.no_comma (hwf e he)
 
 theorem parseSpec_elem (len : Int) (hlen : 0 < len) (hmax : len ≤ LLONG_MAX) (e : Elem)
-    (hwf : e.WF) (hnc : e.spec.NoClamp) : parseSpec e.text len = e.spec.sem len :=
-  parseSpec_element len hlen hmax e.pre e.post hwf.1 hwf.2.1 e.spec hwf.2.2 hnc
+    (hwf : e.WF) : parseSpec e.text len = e.spec.sem len :=
+  parseSpec_element len hlen hmax e.pre e.post hwf.1 hwf.2.1 e.spec hwf.2.2
 
 theorem validRanges_elems (len : Int) (hlen : 0 < len) (hmax : len ≤ LLONG_MAX) (es : List Elem)
-    (hwf : ∀ e ∈ es, e.WF) (hnc : ∀ e ∈ es, e.spec.NoClamp) :
+    (hwf : ∀ e ∈ es, e.WF) :
     validRanges len (es.map Elem.text) = es.filterMap (fun e => e.spec.sem len) := by
   induction es with
   | nil => rfl
   | cons e es ih =>
-    have h1 := parseSpec_elem len hlen hmax e (hwf e (by simp)) (hnc e (by simp))
-    have h2 := ih (fun x hx => hwf x (by simp [hx])) (fun x hx => hnc x (by simp [hx]))
+    have h1 := parseSpec_elem len hlen hmax e (hwf e (by simp))
+    have h2 := ih (fun x hx => hwf x (by simp [hx]))
     unfold validRanges at h2 ⊢
     simp only [List.map_cons, List.filterMap_cons, h1, h2]
 
